@@ -4,7 +4,7 @@ sys.path.insert(0, os.path.dirname(os.path.dirname(os.path.abspath(__file__))))
 import vlib
 
 PID = "C13"
-LEAN_MODULES = ["QbiceVerif.Props.C13"]
+LEAN_MODULES = ["QbiceVerif.Props.C13", "QbiceVerif.Props.NonVacuity.C13"]
 DRIVER = "drv_hash"
 HARNESS_BIN = "hash"
 HARNESS_FEATURES = "extras"
